@@ -1,6 +1,7 @@
 package task
 
 import (
+	"os"
 	"time"
 	"runtime"
 	"bufio"
@@ -717,7 +718,12 @@ func ZZ_C07_Cycle() {
 	probe := zzCmd{}
 	mode := []string{"once", "when_changed"}[zz.Choose("run_mode_of_A", 2)]
 	var g *zzGraph
-	switch zz.Choose("cycle_through", 2) {
+	kind := zz.Choose("cycle_through", 3)
+	switch kind {
+	case 2: // a deferred call of the task itself
+		g = &zzGraph{Tasks: []zzTask{
+			{Name: "A", Run: mode, Cmds: []zzCmd{{Defer: true, Call: "A"}, probe}},
+		}}
 	case 0: // dependencies
 		g = &zzGraph{Tasks: []zzTask{
 			{Name: "A", Run: mode, Deps: []string{"B"}, Cmds: []zzCmd{probe}},
@@ -732,8 +738,14 @@ func ZZ_C07_Cycle() {
 	tf := g.build(func(string) bool { return false })
 	n := zz.Choose("concurrency", 3)
 	tr, err := zzExec(g, tf, zzRunOpts{Concurrency: n}, "A")
-	zz.Assert(err != nil, "cyclic-references-end-with-an-error")
-	zz.Assert(zzCount(tr, "S", "A.0")+zzCount(tr, "S", "A.1") == 0, "cyclic-task-runs-no-command")
+	if kind == 2 {
+		// the task itself runs; its deferred call of itself is refused (a deferred command's
+		// failure does not change the outcome), and the invocation ends
+		zz.Assert(err == nil && zzCount(tr, "S", "A.1") == 1, "deferred-self-call-ends")
+	} else {
+		zz.Assert(err != nil, "cyclic-references-end-with-an-error")
+		zz.Assert(zzCount(tr, "S", "A.0")+zzCount(tr, "S", "A.1") == 0, "cyclic-task-runs-no-command")
+	}
 	if zz.Twin() {
 		zz.Assert(false, "twin")
 	}
@@ -1009,6 +1021,15 @@ func ZZ_C13_Guards() {
 	case 4:
 		gt.Preconditions = []*ast.Precondition{{Sh: zzPreText(), Msg: "no"}}
 		guardFails, wantCode = true, -1 // generic failure
+		if zz.Bool("guarded_task_has_its_own_dir") {
+			gt.Dir = "gdir" // the guard is evaluated where the task's commands would run
+			if zz.Native() {
+				gt.Preconditions[0].Sh = "test -f marker-that-only-the-root-directory-has"
+				os.WriteFile("marker-that-only-the-root-directory-has", nil, 0o644)
+				defer os.Remove("marker-that-only-the-root-directory-has")
+				defer os.RemoveAll("gdir")
+			}
+		}
 	case 5:
 		gt.Prompt = []string{"sure?"}
 		approved := yes || (terminal && (answer == 0 || answer == 1 || answer == 4))
@@ -1053,6 +1074,15 @@ func ZZ_C13_Guards() {
 		zz.Assert(!started, "platform-mismatch-skips-silently")
 		zz.Assert(err == nil, "platform-mismatch-skips-silently/success")
 	case guardFails:
+		if guard == 4 && gt.Dir != "" {
+			if zz.Native() {
+				// the marker exists in the root directory only: the guard passes iff it was
+				// evaluated there
+				zz.Assert(!started, "precondition-is-evaluated-in-the-tasks-directory")
+			} else {
+				zz.Assert(zzPreDir == gt.Dir, "precondition-is-evaluated-in-the-tasks-directory")
+			}
+		}
 		zz.Assert(!started, "failed-guard-runs-no-command-of-the-task")
 		zz.Assert(err != nil, "failed-guard-fails-the-invocation")
 		if err != nil && position != 2 && wantCode > 0 && !(guard == 5 && zzPromptEOF) {
